@@ -643,7 +643,7 @@ def run(ctx):
             "specification's translation of the label is non-empty; distinct = distinct (taxonomy, label). "
             "default table: labels harvested from real parses of /repo/examples programs + labels sampled from each row's "
             "pattern + perturbed labels, every label called at least twice (second pass shuffled, > 300 distinct labels "
-            "between repeats) and once more on a fresh instance; custom tables: random TSV files (literal rows, dots, groups, "
+            "between repeats), once more on a fresh instance, and once more after 4500 (thorough: 12000) distinct other labels on the same instance (memo pressure); custom tables: random TSV files (literal rows, dots, groups, "
             "swapped/named groups, back-references, top-level alternation, nullable patterns, several/duplicated rows per "
             "label, literal+regex overlap, comments columns, -- EOF tails) with histories of 40 calls with repeats; "
             "same-path-rewritten: 2-3 tables written one after the other to the SAME path, one instance built after each "
@@ -693,6 +693,15 @@ def run(ctx):
         hit = {(m[0], m[1]) for _, ms in orc[1] for m in ms} if orc else set()
         ctx.cov["default_rows"] = len(default_rows)
         ctx.cov["default_rows_matched_by_some_label"] = len({(r[0], r[1]) for r in default_rows} & hit)
+        # memo pressure: thousands of distinct other labels between two calls of the same label on ONE instance (seed
+        # C03-k: the memo of get_taxon_name_list bounded to 4096 entries; an evicted label is translated again and its
+        # regex-derived taxa are appended a second time to the list shared with `literal_labels`)
+        litset = {r[1] for r in default_rows if r[2]}
+        both = [L for L, ms in (orc[1] if orc else []) if L in litset and any(m[1] not in litset for m in ms)]
+        ctx.cov["labels_with_literal_and_regex_rows"] = len(both)
+        again = both + rng.sample(labels, min(len(labels), 200))
+        fillers = [f"zz_filler_{i}_{rng.randrange(10**6)}" for i in range(4500 if quick else 12000)]
+        ck.history_case("default-table-memo-pressure", src, None, again + fillers + again, "default")
         # fresh instance: same answers again (the un-memoised path)
         ck.history_case("default-table-fresh-instance", src, None, rng.sample(labels, min(len(labels), 400 if quick else 3000)), "default")
         # -- to_taxa on the default table with the labels of real programs
